@@ -112,6 +112,16 @@ def _run_constraint(ctx, case, st):
   axis = 1
   if kind == "lattice":
     cfg, labels = genl.lattice_config(rng, max_vertices=120, units_choices=(units,))
+    if case["seed"] % 6 == 0:
+      # joint unimodality over 2-4 features listed in any order (the projection unstacks the kernel along those axes in the
+      # listed order; with units > 1 the last axis of the reshaped kernel is the units axis)
+      sz = [[3, 3, 3], [3, 3, 3, 3], [3, 4, 3], [3, 3, 2, 3], [4, 3, 3, 3]][int(rng.randint(5))]
+      elig = [d for d in range(len(sz)) if sz[d] >= 3]
+      g = [int(x) for x in rng.permutation(elig)[:int(rng.randint(2, len(elig) + 1))]]
+      cfg.update(sizes=sz, mono=[0] * len(sz), unimod=[0] * len(sz), ew=[], tz=[], mdom=[], rdom=[], jmono=[],
+                 junimod=[[g, str(rng.choice(["valley", "peak"]))]], omin=None, omax=None, iters=int(rng.choice([1, 2])))
+      labels = ["junimod-focus:%d" % len(g)]
+      ctx.cls("lattice:joint-unimodality-%d-dims" % len(g))
     n = int(np.prod(cfg["sizes"]))
     units = cfg["units"] = units
     kw = genl.constraint_kwargs(cfg)
@@ -213,6 +223,19 @@ def _run_constraint(ctx, case, st):
       sub = [0, units - 1]
       fs = make()(tf.constant(k[:, sub])).numpy()
       _cmp_cols(ctx, "constraint/column-alone-equal", full[:, sub], fs, "%s constraint, unit subset %s" % (kind, sub), ulps=ulps)
+  if kind == "lattice" and labels and str(labels[0]).startswith("junimod-focus"):
+    # the same group listed in other orders: each listing is a configuration of its own (the kernel is unstacked along the
+    # axes in the listed order), and each must keep the units apart
+    g0, dr = desc["junimod"][0]
+    for _ in range(4 if len(g0) >= 3 else 1):
+      g2 = [int(x) for x in rng.permutation(g0)]
+      kw2 = dict(kw, joint_unimodalities=[(tuple(g2), dr)])
+      mk2 = lambda: st["ll"].LatticeConstraints(num_projection_iterations=desc["iters"], **kw2)
+      f2 = mk2()(tf.constant(k)).numpy()
+      u = int(rng.randint(units))
+      single = mk2()(tf.constant(k[:, u:u + 1])).numpy()
+      _cmp_cols(ctx, "constraint/column-alone-equal", f2[:, u:u + 1], single, "lattice constraint, joint unimodality listed as %s, column %d alone" % (g2, u),
+                {"unit": u, "config": core.to_jsonable(dict(desc, junimod=[[g2, dr]]))})
   return bool(np.abs(full - k).max() > 0), core.digest([kind, core.to_jsonable(desc), core.arr_digest(k)])
 
 
